@@ -28,6 +28,7 @@ type CEnv struct {
 	body  *Body
 	pkg   *types.Package // package whose scope resolves bare identifiers
 	nq    int
+	at    *ssa.BasicBlock // program point (for resolving local names)
 }
 
 func (ft *FT) fnEnv(b *Body, st State) *CEnv {
@@ -198,9 +199,13 @@ func (e *CEnv) ident(name string) *CV {
 		ft.usedSpec[name] = true
 		return &CV{T: L(name), Sort: f.Res}
 	}
-	// local variable living in memory (Alloc with that source name)
+	// local variable living in memory (Alloc with that source name), or an SSA
+	// register the debug info maps the source name to
 	if e.body != nil {
 		if cv := e.allocVar(name); cv != nil {
+			return cv
+		}
+		if cv := e.debugVar(name); cv != nil {
 			return cv
 		}
 	}
@@ -292,6 +297,18 @@ func (e *CEnv) deref(v *CV) *CV {
 func (e *CEnv) sel(n *ESel) *CV {
 	ft := e.ft
 	S := ft.e.sorts
+	// dotted ghost variables / spec constants (db.spent)
+	if dn := dottedName(n); dn != "" {
+		if _, shadow := e.vars[strings.SplitN(dn, ".", 2)[0]]; !shadow {
+			if gs, ok := ft.e.prelude.Ghosts[dn]; ok {
+				return &CV{T: e.region(dn), Sort: gs}
+			}
+			if f, ok := ft.e.prelude.Fns[dn]; ok && len(f.Args) == 0 {
+				ft.usedSpec[dn] = true
+				return &CV{T: L(dn), Sort: f.Res}
+			}
+		}
+	}
 	x := e.eval(n.X)
 	if x.Pkg != nil {
 		obj := x.Pkg.Scope().Lookup(n.Name)
@@ -599,4 +616,48 @@ func (e *CEnv) typeExpr(x Expr) types.Type {
 	}
 	e.fail("not a type expression")
 	return nil
+}
+
+// debugVar resolves a source-level local variable name through the DebugRef
+// pseudo-instructions: among the SSA values the name refers to, the one whose
+// definition dominates the current point and is closest to it.
+func (e *CEnv) debugVar(name string) *CV {
+	b := e.body
+	var best ssa.Value
+	var bestBlk *ssa.BasicBlock
+	for _, blk := range b.fn.Blocks {
+		for _, in := range blk.Instrs {
+			d, ok := in.(*ssa.DebugRef)
+			if !ok || d.IsAddr || d.Object() == nil || d.Object().Name() != name {
+				continue
+			}
+			if _, isConst := d.X.(*ssa.Const); isConst {
+				continue
+			}
+			db := defBlock(d.X)
+			if db == nil {
+				if _, isParam := d.X.(*ssa.Parameter); !isParam {
+					continue
+				}
+				db = b.fn.Blocks[0]
+			}
+			if e.at != nil && !db.Dominates(e.at) {
+				continue
+			}
+			if _, translated := b.vals[d.X]; !translated {
+				continue
+			}
+			if best == nil || bestBlk.Dominates(db) {
+				best, bestBlk = d.X, db
+			}
+		}
+	}
+	if best == nil {
+		return nil
+	}
+	v := b.vals[best]
+	if v.Tuple != nil {
+		return nil
+	}
+	return &CV{T: b.refT(v), Type: best.Type(), Sort: e.ft.sortOf(best.Type()), Addr: v.Addr}
 }
